@@ -174,10 +174,26 @@ class C03(Prop):
             "{% if n or x.y == 1 and x %}t{% endif %}", "{{ n | default: x }}", "{% case n %}{% when 3 %}a{% when x %}b{% endcase %}",
             "{% for i in nums limit: 1 %}{{ i }}{% else %}{{ x }}{% endfor %}", "{{ x if false else n }}",
             "{% assign v = x %}{% capture c %}{{ n }}{% endcapture %}{{ c }}", "{% if x %}t{% else %}f{% endif %}{{ x.y }}",
+            "{% case n %}{% when 3, x %}a{% endcase %}", "{% case n %}{% when 1 or 3 or x %}a{% else %}e{% endcase %}",
+            "{% case 'q' %}{% when x, 'q' %}a{% endcase %}", "{% if nums contains 1 or x %}t{% endif %}",
+            "{{ nums | where: i => i == 1 or x | size }}", "{{ 'a' if n == 3 or x else x }}",
         ):
             for pol in ("strict", "falsy"):
                 yield {"kind": "diff", "src": src, "templates": {}, "data": {"n": 3, "nums": [1, 2]}, "loader": "dict",
                        "mask": 0, "via": "from_string", "limits": None, "undefined": pol, "family": "strict-twins"}
+        # the bound variable of include / render and a keyword argument of the same name (which one is in scope when
+        # the other is evaluated must not depend on the mode)
+        parts = {"p": "[{{ p }}|{{ x }}|{{ y }}]", "d/q": "<{{ q }}|{{ x }}>"}
+        for src in (
+            "{% include 'p' with x, x: y %}", "{% include 'p' with x, x: y, y: x %}", "{% include 'p' for xs as x, x: y %}",
+            "{% include 'p' for xs, xs: ys %}", "{% include 'd/q' with x.k, x: u %}", "{% render 'p' with x, x: y %}",
+            "{% render 'p' for xs as x, x: y %}", "{% render 'd/q' with y as x, x: 1 %}",
+            "{% assign x = 'L' %}{% include 'p' with x as y, x: y %}{{ x }}",
+        ):
+            for loader in ("dict", "adict"):
+                yield {"kind": "diff", "src": src, "templates": parts,
+                       "data": {"x": "X", "y": "Y", "xs": [1, 2], "ys": [7], "u": {"k": "K"}}, "loader": loader,
+                       "mask": 0, "via": "from_string", "limits": None, "family": "bound-var-vs-kwarg"}
         # every expression is evaluated the same number of times in both modes (data that changes per read)
         for src in (
             "{% if false %}I{% elsif u.k > 0 %}E{{ u.k }}{% else %}L{% endif %}|{{ u.k }}",
